@@ -27,10 +27,15 @@ def spellings(off, negzero=False):
     sg = "-" if neg else "+"
     hm = str(h) if m == 0 else "%d:%02d" % (h, m)
     out = ["%s%02d%02d" % (sg, h, m), "%s%02d:%02d" % (sg, h, m), "UTC%s%s" % (sg, hm), "UTC%s%02d:%02d" % (sg, h, m), "UTC%s%02d%02d" % (sg, h, m),
-           "GMT%s%02d:%02d" % (sg, h, m), "GMT%s%s" % (sg, hm)]
+           "GMT%s%02d:%02d" % (sg, h, m), "GMT%s%s" % (sg, hm), "GMT%s%02d%02d" % (sg, h, m)]
     if m == 0:
         out += ["UTC%s%02d" % (sg, h), "GMT%s%02d" % (sg, h)]
     return out
+
+
+def spelling_class(sp):
+    """shape of an offset spelling: digits → 'H', e.g. '+HHHH', 'UTC+H:HH'"""
+    return re.sub(r"\d", "H", sp).replace("-", "+")
 
 
 def probe(job):
@@ -82,6 +87,14 @@ def run(ctx):
                 for f in forms:
                     for langs in (["en"], None) if (tier != "quick" or R.random() < 0.05) else (["en"],):
                         jobs.append((f, langs)); meta.append(("abbr", txt, off, bd, name))
+    # an offset, in every spelling, *before a parenthesised abbreviation* (as browsers print dates: "GMT+0800 (CST)"): the offset written
+    # decides, the wall clock is the one written
+    pnames = [n for n in ("CST", "EST", "CET", "IST", "PST") if n in names]
+    for off, negz in dict.fromkeys(offsets):
+        for sp in spellings(off, negz):
+            for (b, bd) in (bodies if tier != "quick" else bodies[:1]):
+                ab = R.choice(pnames)
+                jobs.append((b + " " + sp + " (" + ab + ")", ["en"])); meta.append(("offset+paren", sp, off, bd, None))
     # no zone in the string ⇒ naive
     for (b, bd) in BODIES:
         jobs.append((b, ["en"])); meta.append(("none", "", None, bd, None))
@@ -114,8 +127,13 @@ def run(ctx):
                 ok_aware += 1
         if why:
             key = {"name": name} if name else None
+            if kind == "offset+paren" and why == "not parsed":
+                key = {"rule": "offset-before-parenthesised-abbreviation", "spelling": spelling_class(txt)}
             hit = [e for e in known if key and e.get("key") == key]
-            if hit:
+            if hit and kind == "offset+paren":
+                pk = "paren:" + key["spelling"]
+                khits[pk] = khits.get(pk, 0) + 1
+            elif hit:
                 khits[name] = khits.get(name, 0) + 1
             else:
                 viol.append({"string": s, "languages": langs, "zone_text": txt, "listed_offset": off, "why": why, "observed": r})
@@ -123,10 +141,11 @@ def run(ctx):
                                                        "python": "import dateparser; print(repr(dateparser.parse(%r%s)))" % (v["string"], ", languages=%r" % v["languages"] if v["languages"] else "")})}
            for j, v in enumerate(viol[:10])]
     cov = {"evaluations": len(jobs), "distinct_nontrivial": ok_aware,
-           "rule": "every UTC offset of the table × every accepted spelling, every abbreviation (upper, lower, parenthesised) × bodies × {en, autodetect}; non-trivial = an aware result with exactly the listed offset and the written wall clock that survives pickle/copy/deepcopy",
+           "rule": "every UTC offset of the table × every accepted spelling, every abbreviation (upper, lower, parenthesised), every offset spelling before a parenthesised abbreviation × bodies × {en, autodetect}; non-trivial = an aware result with exactly the listed offset and the written wall clock that survives pickle/copy/deepcopy",
            "samples": [{"s": jobs[i][0], "languages": jobs[i][1], "listed_offset": meta[i][2]} for i in range(0, len(jobs), max(1, len(jobs) // 6))][:6],
            "abbreviations": len(names), "utc_offsets": len(dict.fromkeys(offsets)), "violations": len(viol), "exhaustive": True}
-    return {"violations": out, "known": ["abbreviation %s never recognised with English/autodetect (NORMALIZE strips the caron before the zone is popped) (x%d)" % (k, n) for k, n in sorted(khits.items())],
+    return {"violations": out, "known": [("offset spelled %s before a parenthesised abbreviation is not parsed (only (UTC|GMT)±HH[:]MM tolerates what follows it) (x%d)" % (k[6:], n)) if k.startswith("paren:") else
+                                         ("abbreviation %s never recognised with English/autodetect (NORMALIZE strips the caron before the zone is popped) (x%d)" % (k, n)) for k, n in sorted(khits.items())],
             "coverage": cov, "level": "proof",
             "trusted_base": ["native_decide for the finite walk theorems c11_abbrev / c11_offsets (Lean compiler, one axiom each)"],
             "assumptions": ["default settings (TIMEZONE='local') with TZ=UTC in the harness", "pickling/copying of tzinfo objects is Python object protocol: checked on the library only (not expressible in the model)"]}
